@@ -988,7 +988,7 @@ func init() {
 		Meta: func(c *core.Ctx) core.Meta {
 			return core.Meta{
 				Level:       "exploration",
-				Rule:        "1..16 concurrent senders x 1..2000 messages (thorough: long runs of 60000) x channel capacity 0..4 (New / NewByCh / NewByOptions) against one Handler and one Actor per scenario; every message carries (sender, seq); the effect is the monitor: normal build = atomic busy counter (must read 1 on entry) + PRNG yields inside the effect, race build = PLAIN counter and PLAIN log append so that the Go race detector (deciding) reports any two effects not ordered by happens-before; after a drain marker the log must hold every message exactly once with each sender's subsequence increasing; self == actor; IsClosed() polled by an observer during the traffic; work submitted after Close returned never runs; Close() called by the running work itself with 0..3 accepted items buffered and 0..3 senders blocked on the full mailbox (Close and the senders must return, accepted items run once in order); thousands of fresh Handlers / Actors whose very first submissions race each other (8 senders, one barrier: nothing overlaps, nothing is lost); one sender interleaving AskChannel and Send (arrival order); Close() from outside with accepted work buffered (it still runs once, in order); an Ask whose asker timed out while it was queued behind a busy actor (capacity 0..3) is still processed exactly once; spawn trees of depth 1..3 x fan 1..3 for GetParent/GetChild, mailbox independence and spawning from a closed parent. distinct_nontrivial = distinct scenarios",
+				Rule:        "1..16 concurrent senders x 1..2000 messages (thorough: long runs of 60000) x channel capacity 0..4 (New / NewByCh / NewByOptions) against one Handler and one Actor per scenario; every message carries (sender, seq); the effect is the monitor: normal build = atomic busy counter (must read 1 on entry) + PRNG yields inside the effect, race build = PLAIN counter and PLAIN log append so that the Go race detector (deciding) reports any two effects not ordered by happens-before; after a drain marker the log must hold every message exactly once with each sender's subsequence increasing; self == actor; IsClosed() polled by an observer during the traffic; work submitted after Close returned never runs; Close() called by the running work itself with 0..3 accepted items buffered and 0..3 senders blocked on the full mailbox (Close and the senders must return, accepted items run once in order); thousands of fresh Handlers / Actors whose very first submissions race each other (8 senders, one barrier: nothing overlaps, nothing is lost); one sender interleaving AskChannel and Send (arrival order); Close() from outside with accepted work buffered (it still runs once, in order); an Ask whose asker timed out while it was queued behind a busy actor (capacity 0..3) is still processed exactly once; spawn trees of depth 1..3 x fan 1..3 for GetParent/GetChild, mailbox independence and spawning from a closed parent. distinct_nontrivial = distinct scenarios; (round 7) spawn trees whose root / middle node is closed: the actors below report IsClosed() false and process the messages sent afterwards exactly once in order",
 				Assumptions: []string{"Close is called after the drain or by the running work itself (closing concurrently with arbitrary senders is property C15)", "actor ids are time stamps; the harness spaces Spawn calls by one clock tick"},
 			}
 		},
